@@ -2,7 +2,7 @@
 use crate::stdlib::helpers::{get_int, get_string, make_string};
 use crate::stdlib::{StdModuleExports, register_native};
 use crate::vm::{VM, Value};
-use aelys_common::error::RuntimeError;
+use aelys_common::error::{RuntimeError, RuntimeErrorKind};
 
 /// Register all string functions in the VM.
 pub fn register(vm: &mut VM) -> Result<StdModuleExports, RuntimeError> {
@@ -240,6 +240,14 @@ fn native_join(vm: &mut VM, args: &[Value]) -> Result<Value, RuntimeError> {
     make_string(vm, &result)
 }
 
+/// The result would not even fit the address space: the same error as a heap limit that is too small.
+fn too_long(vm: &VM) -> RuntimeError {
+    vm.runtime_error(RuntimeErrorKind::OutOfMemory {
+        requested: u64::MAX,
+        max: vm.config().max_heap_bytes,
+    })
+}
+
 /// repeat(s, n) - Repeat string n times.
 fn native_repeat(vm: &mut VM, args: &[Value]) -> Result<Value, RuntimeError> {
     let s = get_string(vm, args[0], "string.repeat")?;
@@ -249,6 +257,13 @@ fn native_repeat(vm: &mut VM, args: &[Value]) -> Result<Value, RuntimeError> {
         return make_string(vm, "");
     }
 
+    // the length of the result is known: refuse it before the host builds it
+    let total = s
+        .len()
+        .checked_mul(n as usize)
+        .filter(|t| *t <= isize::MAX as usize)
+        .ok_or_else(|| too_long(vm))?;
+    vm.check_string_capacity(total)?;
     make_string(vm, &s.repeat(n as usize))
 }
 
@@ -290,34 +305,52 @@ fn native_trim_end(vm: &mut VM, args: &[Value]) -> Result<Value, RuntimeError> {
 /// pad_left(s, width, char) - Pad start to width with char.
 fn native_pad_left(vm: &mut VM, args: &[Value]) -> Result<Value, RuntimeError> {
     let s = get_string(vm, args[0], "string.pad_left")?.to_string();
-    let width = get_int(vm, args[1], "string.pad_left")? as usize;
+    let width = get_int(vm, args[1], "string.pad_left")?;
     let pad_char = get_string(vm, args[2], "string.pad_left")?.to_string();
 
     let pad_c = pad_char.chars().next().unwrap_or(' ');
     let char_count = s.chars().count();
 
-    if char_count >= width {
+    // a width that is negative or not larger than the string asks for no padding
+    if width <= 0 || char_count >= width as usize {
         return make_string(vm, &s);
     }
 
-    let padding: String = std::iter::repeat_n(pad_c, width - char_count).collect();
+    // the length of the result is known: refuse it before the host builds it
+    let pad_count = width as usize - char_count;
+    let total = pad_count
+        .checked_mul(pad_c.len_utf8())
+        .and_then(|p| p.checked_add(s.len()))
+        .filter(|t| *t <= isize::MAX as usize)
+        .ok_or_else(|| too_long(vm))?;
+    vm.check_string_capacity(total)?;
+    let padding: String = std::iter::repeat_n(pad_c, pad_count).collect();
     make_string(vm, &format!("{}{}", padding, s))
 }
 
 /// pad_right(s, width, char) - Pad end to width with char.
 fn native_pad_right(vm: &mut VM, args: &[Value]) -> Result<Value, RuntimeError> {
     let s = get_string(vm, args[0], "string.pad_right")?.to_string();
-    let width = get_int(vm, args[1], "string.pad_right")? as usize;
+    let width = get_int(vm, args[1], "string.pad_right")?;
     let pad_char = get_string(vm, args[2], "string.pad_right")?.to_string();
 
     let pad_c = pad_char.chars().next().unwrap_or(' ');
     let char_count = s.chars().count();
 
-    if char_count >= width {
+    // a width that is negative or not larger than the string asks for no padding
+    if width <= 0 || char_count >= width as usize {
         return make_string(vm, &s);
     }
 
-    let padding: String = std::iter::repeat_n(pad_c, width - char_count).collect();
+    // the length of the result is known: refuse it before the host builds it
+    let pad_count = width as usize - char_count;
+    let total = pad_count
+        .checked_mul(pad_c.len_utf8())
+        .and_then(|p| p.checked_add(s.len()))
+        .filter(|t| *t <= isize::MAX as usize)
+        .ok_or_else(|| too_long(vm))?;
+    vm.check_string_capacity(total)?;
+    let padding: String = std::iter::repeat_n(pad_c, pad_count).collect();
     make_string(vm, &format!("{}{}", s, padding))
 }
 
